@@ -250,7 +250,7 @@ def ByPath(inp, tab, ev):
         try:
             for i in l:
                 node = node.ckd(i)
-            folds.append({"list": [idx_json(i) for i in l], "node": node_json(node)})
+            folds.append({"list": [idx_json(i) for i in l], "node": node_json(node), "repr": T(str(node))})
         except Exception:
             pass
     ev["fold"] = folds
